@@ -665,4 +665,6 @@ def run(F, R, tier):
 
     # ---- K rules: the special-function kernels of gm2_dilog.cpp ------------------------------------------------------
     from .kernels import run_kernels
+    from .structure import no_runtime_statics
+    R.guard(no_runtime_statics, F, R, "R9", ("src/gm2_ffunctions.cpp", "src/gm2_ffunctions.hpp", "src/gm2_dilog.cpp", "src/gm2_dilog.hpp", "src/gm2_numerics.hpp", "src/gm2_numerics.cpp"), "loop and special functions (gm2_ffunctions, gm2_dilog, gm2_numerics)", 1)
     R.guard(run_kernels, F, R)
